@@ -120,6 +120,8 @@ def check(case, ctx):
             (is_gen_obj(value[0]) or isinstance(value[0], (list, dict))):
         value.append(value[0])
         ctx.count('shared_subobject')
+    if proj.share_index_item(value, m):
+        ctx.count('index_item_shared_with_attribute')
     try:
         want = proj.Projector(m).project(value)
     except proj.Ambiguous:
